@@ -1,4 +1,6 @@
 """C05 - line-number programs execute to the rows the DWARF state machine prescribes."""
+import zlib
+from vf import streams
 from vf.enc import dwarf as D
 from vf.enc import lineprog as LP
 from vf.ref import lineprog as REF
@@ -153,6 +155,7 @@ def run_case(ctx, case):
         ctx.fail_exc('open', e, case)
         return
     nt = False
+    plain = {}
     line_sec = secs['.debug_line']
     for cu, pi in zip(cus, case['cus']):
         p = case['progs'][pi]
@@ -234,6 +237,7 @@ def run_case(ctx, case):
             if gotf != want:
                 ctx.fail('header|file_entry', 'expected %r got %r' % (want[:3], gotf[:3]), case)
         got_rows = [e.state for e in entries if e.state is not None]
+        plain[pi] = _canon_entries(entries)
         if len(got_rows) != len(rows):
             ctx.fail('rows|count', 'program %d: reference machine emits %d rows, decoded %d' % (pi, len(rows), len(got_rows)), case)
         neg = any(r['line'] < 0 for r in rows)
@@ -273,10 +277,43 @@ def run_case(ctx, case):
             ctx.count('hdr.opcode_base>13')
         if hdrp['max_ops'] > 1:
             ctx.count('hdr.max_ops>1')
+    # A decode that fails for a reason outside the program (a transient read error the caller catches) may be repeated: the repetition
+    # answers as the undisturbed decode did.  One read of the .debug_line stream fails once, somewhere inside the first get_entries().
+    if plain and not case.get('sup_strs') and zlib.crc32(line_sec) % 3 == 0:
+        try:
+            di2 = D.make_dwarfinfo(secs, case['le'], case['progs'][0]['addr_size'], stream_cls=streams.FaultOnce)
+            for k2, (cu2, pi) in enumerate(zip(di2.iter_CUs(), case['cus'])):
+                if pi not in plain:
+                    continue
+                lp2 = di2.line_program_for_CU(cu2)
+                st2 = di2.debug_line_sec.stream
+                st2.arm(1 + (zlib.crc32(line_sec) // 3 + 7 * k2) % max(2, min(60, 2 * len(plain[pi]))))
+                try:
+                    first = _canon_entries(lp2.get_entries())
+                    failed = False
+                except Exception:  # noqa   (the library reports the read error as its own parse error)
+                    first, failed = None, st2.faults > 0
+                    if not failed:
+                        raise
+                st2.disarm()
+                if failed:
+                    ctx.count('transient-fault.first-decode-failed')
+                    again = _canon_entries(lp2.get_entries())
+                    if again != plain[pi]:
+                        ctx.fail('decode|repeated-after-a-failed-attempt', 'program %d: the undisturbed decode yields %d entries; get_entries() repeated after an attempt that a read error interrupted yields %d%s' % (
+                            pi, len(plain[pi]), len(again), '' if len(again) != len(plain[pi]) else ' (different ones)'), case)
+                elif first != plain[pi]:
+                    ctx.fail('decode|on-another-stream-object', 'program %d: %d entries expected, %d decoded' % (pi, len(plain[pi]), len(first)), case)
+        except Exception as e:  # noqa
+            ctx.fail_exc('decode|repeated-after-a-failed-attempt', e, case)
     ctx.case((secs['.debug_line'], secs['.debug_info']), nt,
              {'le': case['le'], 'progs': [{k: p[k] for k in ('version', 'fmt', 'addr_size', 'min_inst', 'max_ops', 'line_base', 'line_range', 'opcode_base')}
                                           for p in case['progs']], 'n_ops': [len(p['ops']) for p in case['progs']],
               'first_ops': case['progs'][0]['ops'][:8], 'debug_line_hex': secs['.debug_line'][:64].hex()})
+
+
+def _canon_entries(entries):
+    return [(e.command, e.is_extended, repr(e.args), None if e.state is None else tuple(getattr(e.state, f, None) for f in FIELDS)) for e in entries]
 
 
 def _writers(ops):
